@@ -183,8 +183,8 @@ def rule_sign(ctx: Ctx) -> List[Ob]:
         if not ("lb" in f.params and "ub" in f.params):
             continue
         S = Signs("lb", "ub", bases)
-        from ..flow import Expander, selection_like
-        ex = Expander(ctx, f, only=selection_like)
+        from ..flow import Expander, bound_ratio_like
+        ex = Expander(ctx, f, only=bound_ratio_like)
         parents = {id(c): p for p in ast.walk(f.node) for c in ast.iter_child_nodes(p)}
         for w0 in walk_no_nested(f.node):
             if isinstance(w0, ast.Call) and dotted(w0.func) == "np.where" and len(w0.args) == 3 and \
